@@ -30,6 +30,15 @@ CORPUS = [
       ('#a', [('ref', '#k'), ('lit', 'a')], [], []),
       ('#b', [('ref', '#k'), ('lit', 'b')], [], []),
       ('#c', [('ref', '#a'), ('ref', '#b'), ('ref', '#k')], [], [])], {}),
+    # a temporary tag of one chain recurs later in another chain merged into the same path (second half of †6)
+    ([('#z', [('pat', '_')], [], []),
+      ('#z', [('pat', '_'), ('pat', '_y')], [[('_y', [('lit', 'v=0')])]], []),
+      ('#b', [('ref', '#z'), ('pat', '_x')], [[('_x', [('lit', 'v=0')])]], [])], {}),
+    ([('#z', [('pat', '_')], [], []),
+      ('#z', [('pat', '_'), ('pat', '_')], [], []),
+      ('#z', [('lit', 'a'), ('pat', '_'), ('pat', '_')], [], []),
+      ('#b', [('ref', '#z'), ('pat', '_x'), ('ref', '#z')], [[('_x', [('lit', 'a'), ('lit', 'b')])]], []),
+      ('#Ab', [('ref', '#z'), ('pat', '_x')], [[('_x', [('lit', 'b')])]], [])], {}),
     # †17: order of rule names
     ([('#b', [('lit', 'a'), ('pat', 'p')], [[('p', [('pat', 'q')])]], []),
       ('#a', [('lit', 'b'), ('pat', 'q')], [], ['#b'])], {}),
@@ -96,6 +105,12 @@ def check_schema(ctx, ast, fe, lits, tag, maxlen, extra):
     if not L.same_outcome(m, r):
         ctx.disagree('compile_lvs', 'different outcome (ok / error class)', case, m, r[1:] if r[0] == 'err' else 'ok')
         return
+    if not L.is_err(m):
+        ok = M([11, sa])
+        if ok != [1, 1]:
+            ctx.disagree('chains_ok', 'the hypothesis chains_ok of C11_match_iff_partial / C12_check_iff_partial does not hold for this schema', case, ok, None)
+        else:
+            ctx.stat('chains_ok.holds')
     if r[0] == 'err':
         ctx.case((text, 'compile-error'), True, None, 'compile.' + str(r[1]))
         return
